@@ -24,7 +24,7 @@ Definition vec16 (b : bytes) : bytes := put_u16be (len b) ++ b.    (* opaque x<.
 Definition ref_label_char (b : byte) : bool :=
   is_alpha b || is_digit b || byte_eqb b x2d || byte_eqb b x5f.
 Definition ref_label (l : bytes) : Prop :=
-  l <> [] /\ (length l <= 63)%nat /\ forallb ref_label_char l = true.
+  l <> [] /\ len l <= 63 /\ forallb ref_label_char l = true.
 Fixpoint join_dot (ls : list bytes) : bytes :=
   match ls with
   | [] => []
@@ -80,21 +80,21 @@ Definition enc_fragment (mseq : byte * byte) (body : bytes) (off n : nat) : byte
 (* --- well-formedness (the vector bounds of the presentation language) --- *)
 Definition wf_ext (e : rext) : Prop :=
   match e with
-  | RSni ls => ls <> [] /\ Forall ref_label ls /\ (length (join_dot ls) <= 253)%nat
-  | RAlpn ps => ps <> [] /\ Forall (fun p => (1 <= length p <= 255)%nat) ps
-                /\ (length (concat (map vec8 ps)) < 65534)%nat
-  | ROther ty body => ty < 65536 /\ ty <> 0 /\ ty <> 16 /\ (length body < 65536)%nat
+  | RSni ls => ls <> [] /\ Forall ref_label ls /\ len (join_dot ls) <= 253
+  | RAlpn ps => ps <> [] /\ Forall (fun p => 1 <= len p <= 255) ps
+                /\ len (concat (map vec8 ps)) < 65534
+  | ROther ty body => ty < 65536 /\ ty <> 0 /\ ty <> 16 /\ len body < 65536
   end.
 
 Definition wf_hello (r : rhello) : Prop :=
-  length (r_random r) = 32%nat
-  /\ (length (r_sid r) <= 32)%nat
-  /\ (length (r_cookie r) <= 255)%nat
-  /\ r_ciphers r <> [] /\ Forall (fun c => c < 65536) (r_ciphers r) /\ (length (r_ciphers r) <= 32767)%nat
-  /\ (1 <= length (r_comp r) <= 255)%nat
+  len (r_random r) = 32
+  /\ len (r_sid r) <= 32
+  /\ len (r_cookie r) <= 255
+  /\ r_ciphers r <> [] /\ Forall (fun c => c < 65536) (r_ciphers r) /\ N.of_nat (length (r_ciphers r)) <= 32767
+  /\ 1 <= len (r_comp r) <= 255
   /\ match r_exts r with
      | None => True
-     | Some es => Forall wf_ext es /\ (length (concat (map enc_ext es)) < 65536)%nat
+     | Some es => Forall wf_ext es /\ len (concat (map enc_ext es)) < 65536
      end.
 
 (* --- what an independent reader of this grammar reports --- *)
@@ -123,6 +123,6 @@ Definition record_header (dtls : bool) := if dtls then dtls_record_header else t
 
 (* a record = (header, fragment) *)
 Definition wf_record (dtls : bool) (rc : bytes * bytes) : Prop :=
-  record_header dtls (fst rc) (length (snd rc)) /\ (1 <= length (snd rc) < 65536)%nat.
+  record_header dtls (fst rc) (length (snd rc)) /\ 1 <= len (snd rc) < 65536.
 Definition stream (recs : list (bytes * bytes)) : bytes := concat (map (fun rc => fst rc ++ snd rc) recs).
 Definition payloads (recs : list (bytes * bytes)) : bytes := concat (map snd recs).
